@@ -407,6 +407,9 @@ func reportPlumbing(c *run.Ctx, s *kit.Summary, r *kit.Rng) {
 		jsonO string
 		histO string
 		newO  string
+		bothO string
+		spec2 string
+		bs2   []int64
 		every int64
 	}
 	var jobs []job
@@ -459,11 +462,28 @@ func reportPlumbing(c *run.Ctx, s *kit.Summary, r *kit.Rng) {
 				Latency: time.Duration(l), Error: e, Method: "GET", URL: "http://x/"})
 		}
 		f.Close()
-		j.jsonO, j.histO, j.newO = j.file+".json", j.file+".hist", j.file+".hist2"
+		j.jsonO, j.histO, j.newO, j.bothO = j.file+".json", j.file+".hist", j.file+".hist2", j.file+".hist3"
+		{ // a second, different list for the inline form
+			n2 := 1 + r.Pick(4)
+			cur := int64(r.Pick(3)) * 1000000
+			var parts2 []string
+			for q := 0; q < n2; q++ {
+				j.bs2 = append(j.bs2, cur)
+				parts2 = append(parts2, time.Duration(cur).String())
+				cur += int64(1+r.Pick(9)) * 700000
+			}
+			if j.bs2[0] > 0 {
+				j.bs2 = append([]int64{0}, j.bs2...)
+			}
+			j.spec2 = "[" + strings.Join(parts2, ",") + "]"
+		}
 		ops = append(ops,
 			fmt.Sprintf("report %s %d %s %s %s", kit.HexS("json"), j.every, kit.HexS(spec), kit.HexS(j.jsonO), kit.HexS(j.file)),
 			fmt.Sprintf("report %s %d - %s %s", kit.HexS("hist"+spec), j.every, kit.HexS(j.histO), kit.HexS(j.file)),
-			fmt.Sprintf("report %s %d %s %s %s", kit.HexS("hist"), j.every, kit.HexS(spec), kit.HexS(j.newO), kit.HexS(j.file)))
+			fmt.Sprintf("report %s %d %s %s %s", kit.HexS("hist"), j.every, kit.HexS(spec), kit.HexS(j.newO), kit.HexS(j.file)),
+			// both ways of giving buckets at once, with DIFFERENT lists: whichever the command honours, the rows must
+			// be the partition for ONE of the two given lists
+			fmt.Sprintf("report %s %d %s %s %s", kit.HexS("hist"+j.spec2), j.every, kit.HexS(spec), kit.HexS(j.bothO), kit.HexS(j.file)))
 		jobs = append(jobs, j)
 	}
 	outs, err := kit.RunVegeta(c.Vegeta, ops)
@@ -484,9 +504,9 @@ func reportPlumbing(c *run.Ctx, s *kit.Summary, r *kit.Rng) {
 		}
 		in := map[string]interface{}{"buckets_spec": j.spec, "latencies": j.lats, "every_ns": j.every}
 		s.Count(fmt.Sprintf("report:every=%v", j.every > 0))
-		if outs[3*i] != "ok" || outs[3*i+1] != "ok" || outs[3*i+2] != "ok" {
+		if outs[4*i] != "ok" || outs[4*i+1] != "ok" || outs[4*i+2] != "ok" || outs[4*i+3] != "ok" {
 			if len(j.lats) > 0 { // an empty result file has no detectable encoding: not in the quantifier
-				s.Violate(kit.Violation{Kind: "report_buckets_failed", What: "report command failed on a valid bucket specification", Input: in, Observed: outs[3*i] + " / " + outs[3*i+1] + " / " + outs[3*i+2]})
+				s.Violate(kit.Violation{Kind: "report_buckets_failed", What: "report command failed on a valid bucket specification", Input: in, Observed: outs[4*i] + " / " + outs[4*i+1] + " / " + outs[4*i+2] + " / " + outs[4*i+3]})
 			}
 			continue
 		}
@@ -534,6 +554,38 @@ func reportPlumbing(c *run.Ctx, s *kit.Summary, r *kit.Rng) {
 				s.Violate(kit.Violation{Kind: "report_hist_buckets", What: "rows of the text histogram report (" + []string{"-type=hist[…]", "-type=hist -buckets=…"}[which] + ") are not the partition of the results",
 					Input: in, Expected: fmt.Sprint(ref), Observed: string(hb)})
 			}
+		}
+		{ // both forms given
+			hb, _ := os.ReadFile(j.bothO)
+			if k := strings.LastIndex(string(hb), "Bucket"); k > 0 {
+				hb = hb[k:]
+			}
+			_, rows := parseHistText(hb)
+			match := func(bs []int64) bool {
+				refb := make([]uint64, len(bs))
+				for _, l := range j.lats {
+					for b := range bs {
+						if l >= bs[b] && (b == len(bs)-1 || l < bs[b+1]) {
+							refb[b]++
+						}
+					}
+				}
+				if len(rows) != len(bs) {
+					return false
+				}
+				for k := range rows {
+					if rows[k][2] != strconv.FormatUint(refb[k], 10) || rows[k][0] != time.Duration(bs[k]).String() {
+						return false
+					}
+				}
+				return true
+			}
+			s.Count("report:both_bucket_forms_given")
+			if !match(j.bs) && !match(j.bs2) {
+				s.Violate(kit.Violation{Kind: "report_hist_buckets", What: "-type=hist[A] together with -buckets=B: the rows are the partition neither for A nor for B (the given bounds are not preserved)",
+					Input: map[string]interface{}{"type": "hist" + j.spec2, "buckets": j.spec, "latencies": j.lats}, Expected: fmt.Sprint("rows for ", j.bs, " or for ", j.bs2), Observed: string(hb)})
+			}
+			os.Remove(j.bothO)
 		}
 		os.Remove(j.newO)
 		os.Remove(j.file)
